@@ -2,12 +2,15 @@ package main
 
 import (
 	"context"
+	"fmt"
 	"math/rand"
 	"sort"
 
 	"github.com/hashicorp/hcl-lang/lang"
+	"github.com/hashicorp/hcl-lang/schema"
 	"github.com/hashicorp/hcl/v2"
 	"github.com/hashicorp/hcl/v2/hclsyntax"
+	"github.com/zclconf/go-cty/cty"
 )
 
 func init() { props["C15"] = runC15 }
@@ -47,7 +50,11 @@ func runC15(run *Run, replay string) {
 	ctx := context.Background()
 	for bi := 0; bi < bases; bi++ {
 		r := rand.New(rand.NewSource(subSeed(run.Res.Seed, bi)))
-		for _, sc := range genScenarios(r, ScenarioOpts{Histories: hist, Inject: bi%2 == 1, Gen: GenOpts{Degenerate: bi%7 == 6, DynFocus: bi%5 == 4}}) {
+		scs15 := genScenarios(r, ScenarioOpts{Histories: hist, Inject: bi%2 == 1, Gen: GenOpts{Degenerate: bi%7 == 6, DynFocus: bi%5 == 4}})
+		if bi == 0 {
+			scs15 = append(scs15, validationFocusScenarios()...)
+		}
+		for _, sc := range scs15 {
 			f := sc.Main.Ctx.Files[sc.File]
 			body, ok := f.Body.(*hclsyntax.Body)
 			if !ok {
@@ -92,4 +99,88 @@ func summaryClass(s string) string {
 		}
 	}
 	return "deprecated"
+}
+
+// validationFocus: deterministic configurations around the clauses a random draw rarely combines - block
+// counts between the limits with static and generated (dynamic) blocks of one type mixed, and required
+// attributes of the part of the schema that IS known when the dependent body is not found (label without a
+// registered body; two-step lookup whose second step is not registered).
+func validationFocusSchema() *schema.BodySchema {
+	str := func(req bool) *schema.AttributeSchema {
+		return &schema.AttributeSchema{IsRequired: req, IsOptional: !req, Constraint: schema.LiteralType{Type: cty.String}}
+	}
+	k1 := schema.DependencyKeys{Labels: []schema.LabelDependent{{Index: 0, Value: "aws"}}}
+	k2 := schema.DependencyKeys{Labels: []schema.LabelDependent{{Index: 0, Value: "aws"}},
+		Attributes: []schema.AttributeDependent{{Name: "mode", Expr: schema.ExpressionValue{Static: cty.StringVal("fast")}}}}
+	first := func() *schema.BodySchema {
+		return &schema.BodySchema{
+			Attributes: map[string]*schema.AttributeSchema{"zone": str(true), "mode": {IsOptional: true, IsDepKey: true, Constraint: schema.LiteralType{Type: cty.String}}},
+			Blocks: map[string]*schema.BlockSchema{
+				"disk": {MinItems: 2, MaxItems: 3, Body: &schema.BodySchema{Attributes: map[string]*schema.AttributeSchema{"size": str(true)}}},
+			},
+		}
+	}
+	second := first()
+	second.Attributes["speed"] = str(true)
+	res := &schema.BlockSchema{
+		Labels: []*schema.LabelSchema{{Name: "type", IsDepKey: true}},
+		Body: &schema.BodySchema{
+			Extensions: &schema.BodyExtensions{DynamicBlocks: true},
+			Attributes: map[string]*schema.AttributeSchema{"id": str(true), "note": str(false)},
+			Blocks: map[string]*schema.BlockSchema{
+				"rule": {MinItems: 2, MaxItems: 3, Body: &schema.BodySchema{Attributes: map[string]*schema.AttributeSchema{"port": str(true)}}},
+			},
+		},
+		DependentBody: map[schema.SchemaKey]*schema.BodySchema{schema.NewSchemaKey(k1): first(), schema.NewSchemaKey(k2): second},
+	}
+	depKeyIndex[res] = []schema.DependencyKeys{k1, k2}
+	return &schema.BodySchema{Blocks: map[string]*schema.BlockSchema{"res": res}}
+}
+
+func validationFocusTexts() []string {
+	var out []string
+	blocks := func(t, attr string, static, dyn int) string {
+		s := ""
+		for i := 0; i < static; i++ {
+			if i == 1 {
+				s += fmt.Sprintf("  %s {\n  }\n", t) // the required attribute is missing in the second one
+			} else {
+				s += fmt.Sprintf("  %s {\n    %s = \"v\"\n  }\n", t, attr)
+			}
+		}
+		for i := 0; i < dyn; i++ {
+			s += fmt.Sprintf("  dynamic %q {\n    for_each = [\"a\"]\n    content {\n      %s = \"w\"\n    }\n  }\n", t, attr)
+		}
+		return s
+	}
+	for static := 0; static <= 4; static++ {
+		for dyn := 0; dyn <= 1; dyn++ {
+			// body found: the dependent body's block type (disk) may be generated; rule is static
+			out = append(out, fmt.Sprintf("res \"aws\" {\n  id = \"i\"\n  zone = \"z\"\n%s%s}\n", blocks("disk", "size", static, dyn), blocks("rule", "port", 2, 0)))
+			// no body registered for the label: every static block type (rule) may be generated
+			out = append(out, fmt.Sprintf("res \"other\" {\n  id = \"i\"\n%s}\n", blocks("rule", "port", static, dyn)))
+		}
+	}
+	out = append(out,
+		// required attributes of the known part, body not found / found in one step / second step not registered / found in two steps
+		"res \"other\" {\n  extra = 1\n  unknownblock {\n  }\n  rule {\n    port = \"p\"\n  }\n  rule {\n  }\n}\n",
+		"res \"aws\" {\n  rule {\n    port = \"p\"\n  }\n  rule {\n    port = \"q\"\n  }\n  disk {\n    size = \"s\"\n  }\n  disk {\n    size = \"t\"\n  }\n}\n",
+		"res \"aws\" {\n  id = \"i\"\n  mode = \"slow\"\n  extra = 1\n  rule {\n    port = \"p\"\n  }\n  rule {\n    port = \"q\"\n  }\n  disk {\n  }\n  disk {\n    size = \"t\"\n  }\n}\n",
+		"res \"aws\" {\n  id = \"i\"\n  zone = \"z\"\n  mode = \"fast\"\n  rule {\n    port = \"p\"\n  }\n  rule {\n    port = \"q\"\n  }\n  disk {\n    size = \"s\"\n  }\n  disk {\n    size = \"t\"\n  }\n}\n",
+		"res {\n}\nres \"aws\" \"surplus\" {\n  id = \"i\"\n}\n",
+	)
+	return out
+}
+
+func validationFocusScenarios() []*Scenario {
+	var out []*Scenario
+	for _, src := range validationFocusTexts() {
+		sch := validationFocusSchema()
+		blockSnap := map[*schema.BlockSchema]S{}
+		snapshotBlocks(sch, blockSnap, 0)
+		w := newWorld()
+		pd := w.AddPath("root", sch, map[string]string{"main.tf": src}, nil)
+		out = append(out, &Scenario{W: w, Main: pd, File: "main.tf", Src: []byte(src), Kind: "validation-focus", SchS: bodySchemaS(sch), BlockS: blockSnap})
+	}
+	return out
 }
